@@ -3,11 +3,10 @@
      * ISO8601_DT never matches a text starting with 'P' (`iso_re_P`, by `rmatch_nofirst`: a pattern none of whose character tests accepts
        the first character can only match the empty prefix), hence the shapes of the interval halves (`interval_parse_py_form`): the
        TypeError / AttributeError branches of the assembly are unreachable (`assemble_py_dt`, with Proofs/C17Total.v interval_parse_dt);
-     * `parse_total_py_all`: a value or ValueError/ParserError on every string and option combination, OUTSIDE one region of the model:
-       `py_parts_unmodelled s` — an interval whose duration half has a negative float total in py_parts, which the model marks
-       E_Exception = "outside the modelled fragment" (not an exception of the real code).  The region is empty in reality (rounding to
-       nearest is monotone: total_seconds() >= (years*365+months*30)*86400) but that needs the real-number semantics of DurParse's
-       int_truediv / fsub, not linked to Flocq here; it is decidable, evaluates to false on every witness, and is empty without '/';
+     * `parse_total_py_all` / `parse_total_py_full`: a value or ValueError/ParserError on every string and option combination.  The
+       region `py_parts_unmodelled s` of the earlier `_partial` form (an interval whose duration half had a negative float total, once
+       marked E_Exception in the model of Duration's derived fields) is empty: Model/DurParse.v py_parts now computes the negative case
+       faithfully (Duration.__new__'s m = -1 branch) and never raises (`py_parts_ok`, `py_parts_unmodelled_never`);
      * soundness of the matcher w.r.t. a declarative reading of the pattern and the LANGUAGE OF EVERY CAPTURE GROUP (`rmatch_sound`,
        `re_match_group_lang`): the tz group of ISO8601_DT is Z or a sign followed by characters >= '0' (`tz_shape`), hence py_tz_offset
        returns |offset| < 24 h (`py_tz_offset_in_range`); the compiled descent only takes its offset from rs_offset
@@ -186,8 +185,11 @@ Qed.
 
 (* the duration half handed to DateTime.add: the model of Duration's derived fields marks a negative total as outside its fragment *)
 Definition VOX : list exn := [E_ValueError; E_OverflowError; E_Exception].
+(* py_parts computes both signs of the float total (Duration.__new__'s m = -1 branch included): it never raises *)
+Lemma py_parts_ok x ob : exists p, py_parts x ob = Ok p.
+Proof. unfold py_parts. destruct ob as [[[[y mo] a] b] c]. eexists; reflexivity. Qed.
 Lemma py_parts_exn x ob : exn_in [E_Exception] (py_parts x ob).
-Proof. unfold py_parts. destruct ob as [[[[y mo] a] b] c]. destruct (SpecFloat.SFltb _ _); simpl; auto. Qed.
+Proof. destruct (py_parts_ok x ob) as [p ->]. exact I. Qed.
 
 Lemma vox_of_vo {A} (r : result A) : exn_in [E_ValueError; E_OverflowError] r -> exn_in VOX r.
 Proof. apply exn_in_weaken. intros e [<-|[<-|[]]]; simpl; auto. Qed.
@@ -700,3 +702,18 @@ Example py_parts_region_examples :
   py_parts_unmodelled [80;49;89;47;50;48;50;49;45;48;49;45;48;49] = false /\                                           (* P1Y/2021-01-01 *)
   py_parts_unmodelled [80;49;46;53;87;47;50;48;50;49;45;48;49;45;48;49] = false.                                       (* P1.5W/2021-01-01 *)
 Proof. vm_compute. repeat split; reflexivity. Qed.
+
+
+(* ------------------------------------------------------------------ unconditional: the region is empty (py_parts never raises) *)
+Lemma py_parts_unmodelled_never s : py_parts_unmodelled s = false.
+Proof.
+  unfold py_parts_unmodelled. destruct (interval_parse py_iso8601 s) as [f|]; [|reflexivity].
+  destruct f as [a b|a d|d b]; try reflexivity.
+  - destruct d as [| |x ob]; try reflexivity. destruct (py_parts_ok x ob) as [p ->]. reflexivity.
+  - destruct d as [| |x ob]; try reflexivity. destruct (py_parts_ok x ob) as [p ->]. reflexivity.
+Qed.
+
+Theorem parse_total_py_full du :
+  (forall s a b, match du s a b with Ok _ | Raise E_ValueError | Raise E_ParserError | Raise E_OverflowError => True | Raise _ => False end) ->
+  forall o s, out_ok (parse_full du false o s).
+Proof. intros H o s. apply (parse_total_py_region du H o s). apply py_parts_unmodelled_never. Qed.
